@@ -880,7 +880,14 @@ impl QueryRouter {
         let num_parameters = message_cursor.get_i16();
 
         for i in 0..num_parameters {
-            let mut len = message_cursor.get_i32() as usize;
+            let len = message_cursor.get_i32();
+
+            // NULL parameter, no value bytes follow.
+            if len < 0 {
+                continue;
+            }
+
+            let mut len = len as usize;
             let format = match &parameter_format {
                 ParameterFormat::Text => ParameterFormat::Text,
                 ParameterFormat::Uniform(format) => *format.clone(),
@@ -920,6 +927,7 @@ impl QueryRouter {
                                 "Got wrong length for integer type parameter in bind: {}",
                                 len
                             );
+                            message_cursor.advance(len);
                             continue;
                         }
                     },
@@ -928,6 +936,9 @@ impl QueryRouter {
                 };
 
                 shards.insert(sharder.shard(value));
+            } else {
+                // Not the sharding key, skip over the value.
+                message_cursor.advance(len);
             }
         }
 
